@@ -1,3 +1,5 @@
 import SlipVerif.Model.Num
+import SlipVerif.Model.Seq
 import SlipVerif.Driver.Num
+import SlipVerif.Driver.Seq
 import SlipVerif.Driver.Util
